@@ -125,6 +125,28 @@ structure FrameR (σ : Sh) (i : Nat) (fs ft : Frame) : Prop where
   function : fs.function = ft.function.map (renFn σ)
   counters : σ.n0 ≤ i → fs.getMiss = ft.getMiss ∧ fs.cantCache = ft.cantCache ∧ fs.numSet = ft.numSet
 
+/-- the "same closure" test of `NewFunctionEnvironment` (repo fix 22094ba: same text AND same defining environment) is
+invariant under the renaming: the shift of frame indices is injective -/
+theorem sameFunction_ren (σ : Sh) {fs ft : Frame} (hk : fs.cacheKey = ft.cacheKey)
+    (hf : fs.function = ft.function.map (renFn σ)) (f : FuncVal) :
+    sameFunction fs (renFn σ f) = sameFunction ft f := by
+  unfold sameFunction
+  rw [hk, hf]
+  have hkey : (renFn σ f).key = f.key := rfl
+  have henv : (renFn σ f).env = sh σ f.env := rfl
+  rw [hkey, henv]
+  cases ft.function with
+  | none => rfl
+  | some g =>
+    have hg : (renFn σ g).env = sh σ g.env := rfl
+    simp only [Option.map, hg]
+    have hb : (sh σ g.env == sh σ f.env) = (g.env == f.env) := by
+      by_cases h : g.env = f.env
+      · rw [h]; simp
+      · have h' : sh σ g.env ≠ sh σ f.env := fun e => h (sh_inj σ e)
+        rw [beq_eq_false_iff_ne.mpr h, beq_eq_false_iff_ne.mpr h']
+    rw [hb]
+
 /-- cache entries: same key and output, renamed result, arguments equal as cache keys -/
 structure EntryR (σ : Sh) (cs ct : CacheEntry) : Prop where
   key : cs.key = ct.key
